@@ -815,13 +815,9 @@ func (g *generator) step() (res Value, resultType resultType, ex *Exception) {
 		res = vm.pop()
 	} else {
 		for {
-			ex = vm.runTryInner()
+			// An exception thrown in a finally block that was entered by return() stops at its frame, carry on
+			ex = g.propagate(vm.runTryInner())
 			if ex != nil {
-				if len(vm.tryStack) > int(g.tryStackLen) {
-					// The exception was thrown in the outermost finally block, it never got to leaveFinally
-					// which does popTryFrame()
-					vm.popTryFrame()
-				}
 				return
 			}
 
